@@ -26,7 +26,7 @@ LEVEL = "fault_enumeration"
 TECHNIQUE = "exhaustive fault-position enumeration (every function call as the failing one) x exception types x execution modes, with all deviation-bounded task schedules explored for the executor modes"
 RULE = ("mapped pipelines of C03's family and G-DAG pipelines N<=2 with all decorations (thorough: N=3), including histories of two failures on one pipeline object, x every (function, call index) as the failing invocation x "
         "exception {ValueError('boom', k), KeyError(), custom picklable class with an attribute} x {pipeline(), run, func(), sequential map, deferred executor: every "
-        "schedule with <= B deviations, sync and async, real thread pool, real process pool (thorough), sequential with show_progress=True, sequential with profile=True (one pipeline; nothing may be left running)}. non-trivial = distinct (pipeline, failing function, call index, "
+        "schedule with <= B deviations, sync and async, real thread pool, real process pool (thorough), sequential with show_progress=True, sequential with profile=True (one pipeline; nothing may be left running)}; plus a failing function whose argument cannot be copied (a lock) or is recognised by identity (a sentinel), through pipeline(), run and map: same exception, snapshot present, reproduce() raises it again; the note shows every argument the failing invocation received (strings and whole arrays). non-trivial = distinct (pipeline, failing function, call index, "
         "exception type, mode) where the failing call is not the first call of the run")
 ASSUMPTIONS = ["'loadable afterwards' is demanded for file_array storage (dict storages persist only at the end of a successful run)",
                "for pipeline()/run the 'later generation' clause is checked as: nothing runs after the failing call and no dependent of the failing function ran",
@@ -95,6 +95,9 @@ def attribution_ok(e, fname, seen):
         # the hook sees the ORIGINAL parameter names, the note may use the renamed ones: compare by value
         if isinstance(v, str) and f"={v!r}" not in notes:
             return False, f"note does not show the failing invocation's argument value {v!r} (parameter {k}): {getattr(e, '__notes__', None)}"
+        # whole arrays / lists (a reduction): the note shows the value the function RECEIVED, not a storage handle
+        if not isinstance(v, str) and " at 0x" not in repr(v) and f"={v!r}" not in notes:
+            return False, f"note does not show the array the failing invocation received for parameter {k} ({repr(v)[:60]}...): {str(getattr(e, '__notes__', None))[:300]}"
     return True, ""
 
 
@@ -237,6 +240,60 @@ def profile_fault_case(cfg, fault):
         outv.append(({"kind": "threads-left-running", **base},
                      f"{cfg} {fault} with profile=True: threads still running after the failure surfaced: {res['alive']} (the interpreter cannot exit)"))
     return outv
+
+
+def special_argument_cases(which):
+    """arguments that cannot be copied (a lock) or that the function recognises by IDENTITY (a sentinel object): the failure
+    surfaces unchanged, the snapshot exists and reproduce() raises the same exception"""
+    import threading
+
+    from pipefunc import PipeFunc, Pipeline
+    val = threading.Lock() if which == "uncopyable" else object()
+
+    def f(x):
+        if x is val:
+            raise ValueError("boom", which)
+        return "did-not-fail"
+
+    out = []
+    for entry in ("call", "run", "map"):
+        base = {"mode": "special-argument", "argument": which, "entry": entry}
+        with contextlib.redirect_stdout(io.StringIO()), warnings.catch_warnings():
+            warnings.simplefilter("ignore")
+            p = Pipeline([PipeFunc(f, "y")])
+            try:
+                if entry == "call":
+                    p("y", x=val)
+                elif entry == "run":
+                    p.run("y", kwargs={"x": val})
+                else:
+                    p.map({"x": val}, parallel=False, storage="dict")
+            except ValueError as e:
+                if e.args != ("boom", which):
+                    out.append(({"kind": "exception-changed", "got": "ValueError", **base}, f"{entry} with a {which} argument: caller got {e!r}"))
+                    continue
+            except Exception as e:  # noqa: BLE001
+                out.append(({"kind": "exception-changed", "got": type(e).__name__, "site": findings.exc_site(e), **base},
+                            f"{entry} with a {which} argument: the user's ValueError('boom') surfaced as {e!r}"))
+                continue
+            else:
+                out.append(({"kind": "failure-swallowed", **base}, f"{entry} with a {which} argument: no exception"))
+                continue
+            for owner, snap in (("function", p["y"].error_snapshot), ("pipeline", p.error_snapshot)):
+                if snap is None:
+                    out.append(({"kind": "no-snapshot", "owner": owner, **base}, f"{entry} with a {which} argument: {owner}.error_snapshot is None"))
+                    continue
+                try:
+                    r = snap.reproduce()
+                except ValueError as e:
+                    if e.args != ("boom", which):
+                        out.append(({"kind": "reproduce-differs", "owner": owner, **base}, f"{entry}: {owner}.error_snapshot.reproduce() raised {e!r}"))
+                except Exception as e:  # noqa: BLE001
+                    out.append(({"kind": "reproduce-differs", "owner": owner, **base}, f"{entry}: {owner}.error_snapshot.reproduce() raised {e!r}"))
+                else:
+                    out.append(({"kind": "reproduce-returns", "owner": owner, **base},
+                                f"{entry} with a {which} argument: {owner}.error_snapshot.reproduce() returned {r!r} instead of raising the recorded exception"))
+    return out
 
 
 def generations(spec):
@@ -453,6 +510,8 @@ def plan(tier, seed):
     for fname, k in map_faults("two-maps-reduce"):
         if k == 1:
             units.append(("map-sequential-and-thread-pool", ("profile", {"pipe": "two-maps-reduce"}, {"func": fname, "call": 1, "exc": "ValueError"})))
+    for which in ("uncopyable", "identity"):
+        units.append(("map-sequential-and-thread-pool", ("special", which)))
     stages = ["N1", "N2", "N2-decorated", "N2-special-names"] if tier == "quick" else ["N1", "N2", "N2-decorated", "N2-special-names", "N3"]
     for st in stages:
         n = sum(1 for _ in c02.specs_for(st))
@@ -478,6 +537,12 @@ def run_unit(unit):
         acc.stratum("map-sequential-profile")
         for sig, text in profile_fault_case(cfg, fault):
             acc.violation(sig, {"kind": "profile", "cfg": cfg, "fault": fault}, text)
+        return acc
+    if kind == "special":
+        acc.case(hash(("special", unit[1])), n=3)
+        acc.stratum("special-arguments")
+        for sig, text in special_argument_cases(unit[1]):
+            acc.violation(sig, {"kind": "special", "which": unit[1]}, text)
         return acc
     if kind == "map":
         _, cfg, fault, _ = unit
@@ -531,6 +596,8 @@ def run_unit(unit):
 
 
 def replay(art):
+    if art["kind"] == "special":
+        return [s for s, _ in special_argument_cases(art["which"])]
     if art["kind"] == "profile":
         return [s for s, _ in profile_fault_case(art["cfg"], art["fault"])]
     if art["kind"] == "dag2":
